@@ -404,3 +404,22 @@ func (P *Prog) IfaceContract(recv types.Type, method *types.Func) *Contract {
 	}
 	return nil
 }
+
+// typeByName resolves "pkgname.Type" among the clover packages.
+func (P *Prog) typeByName(name string) types.Type {
+	i := strings.LastIndex(name, ".")
+	if i < 0 {
+		return nil
+	}
+	pn, tn := name[:i], name[i+1:]
+	for _, p := range P.pkgs {
+		if p.Pkg.Name() == pn || p.Pkg.Path() == pn {
+			if o := p.Pkg.Scope().Lookup(tn); o != nil {
+				if _, ok := o.(*types.TypeName); ok {
+					return o.Type()
+				}
+			}
+		}
+	}
+	return nil
+}
